@@ -422,18 +422,25 @@ func runFsmCaseFaults(c *vCtx, idx int64, prop string, oracle fsmOracle, cfg fsm
 // runFsmCaseFaults2: preFaultPct > 0 additionally makes WriteFrame calls of the pre-trigger
 // path fail (only C03's oracle has a rule for the recordings given up that way).
 func runFsmCaseFaults2(c *vCtx, idx int64, prop string, oracle fsmOracle, cfg fsmConfig, evs []fsmEvent, class string, writeFaultPct, preFaultPct int) {
+	// every third case with camera time-on telemetry that is not strictly increasing
+	timeOn := 0
+	if idx%3 == 1 {
+		timeOn = 1 + int(idx/3%3)
+	}
 	c.Case(idx, func() interface{} {
 		r := newFsmRun(cfg)
+		r.timeOnMode = timeOn
 		r.preFaultPct = preFaultPct
 		r.writeFaultPct, r.stopFaultPct, r.faultRNG = writeFaultPct, writeFaultPct/2, vNewRNG(uint64(idx), 99)
 		for _, e := range evs {
 			r.step(e)
 		}
-		return map[string]interface{}{"config": cfg.String(), "script": scriptString(evs),
+		return map[string]interface{}{"config": cfg.String(), "script": scriptString(evs), "camera_time_on": []string{"strictly increasing", "constant (Boson)", "falls back every 7 frames", "every value twice"}[timeOn],
 			"legend": "f=frame m=frame with motion aimed b=bad frame r=reset q=snapshot query; suffix w=window closed c=disk check refuses x=file creation fails",
 			"trace":  traceString(r.steps, 80)}
 	}, func() {
 		r := newFsmRun(cfg)
+		r.timeOnMode = timeOn
 		r.preFaultPct = preFaultPct
 		r.writeFaultPct, r.stopFaultPct, r.faultRNG = writeFaultPct, writeFaultPct/2, vNewRNG(uint64(idx), 99)
 		for _, e := range evs {
@@ -470,6 +477,10 @@ func runFsmCaseFaults2(c *vCtx, idx int64, prop string, oracle fsmOracle, cfg fs
 			}
 		}
 		fsmStats(c, v, r)
+		c.Seen("time_on_modes", fmt.Sprint(timeOn))
+		if timeOn != 0 {
+			c.Count("scripts_with_non_increasing_time_on", 1)
+		}
 		if len(v.recs) > 0 {
 			c.Nontrivial(vNewHash().Str(cfg.String()).U64(traceHash(r.steps)).Sum())
 			c.Sample(class, func() interface{} {
